@@ -1,7 +1,7 @@
 SPECIFICATION MCSpec
 CONSTANTS
   Configs <- ConfigsGenInc
-  ClampOnAdd = FALSE
+  ClampOnAdd = TRUE
   MaxNow = 0
   MaxDt = 0
   MaxSteps = 5
